@@ -38,6 +38,15 @@ def tags_of(files, op):
         local |= {n.id for n in ast.walk(fn) if isinstance(n, ast.Name) and isinstance(n.ctx, ast.Store)}
         if rnames & local:
             tags.add("global-extraction-reads-function-local")
+    if is_expr and op.get("similar") and op["api"] == "extract_variable" and funcs and not region.strip().isidentifier():
+        # the value is computed once, in front of the first occurrence; a later equal-looking
+        # occurrence whose operands have been re-bound meanwhile meant something else
+        fn = funcs[-1]
+        want = ast.dump(ast.parse(region.strip(), mode="eval").body)
+        same = [n for n in ast.walk(fn) if isinstance(n, ast.expr) and not isinstance(getattr(n, "ctx", None), (ast.Store, ast.Del)) and ast.dump(n) == want]
+        stored = {n.id for n in ast.walk(fn) if isinstance(n, ast.Name) and isinstance(n.ctx, ast.Store)}
+        if len(same) > 1 and rnames & stored:
+            tags.add("similar-occurrences-with-rebound-operands-share-one-value")
     if is_expr:
         for n in ast.walk(tree):
             if isinstance(n, (ast.ListComp, ast.SetComp, ast.DictComp, ast.GeneratorExp)) and inside(n) and _span(starts, n) != (a, b):
